@@ -27,6 +27,7 @@ var c03Specs = []famSpec{
 	{Family: "tot-rect", FreshQ: 6000, FreshT: 300000},
 	{Family: "tot-misc", FreshQ: 4000, FreshT: 200000},
 	{Family: "tot-d", FreshQ: 3000, FreshT: 150000},
+	{Family: "tot-tree", FreshQ: 600, FreshT: 30000},
 }
 
 // exported callables that cannot be reached from outside the package or are
@@ -287,6 +288,48 @@ func c03Run(ctx *run.Ctx, id run.CaseID) {
 		ctx.Count("api.PolyPathBase.AddChild", 1)
 		ctx.Count("api.PolyPathBase.SetScale", 1)
 		t.T("NewPolyPathBase", func() { _ = clip.NewPolyPathBase(nil) })
+	case "tot-tree":
+		// deep nesting (up to 16 levels of concentric rings, several clusters) and the whole tree API on every node
+		depth := 2 + r.Intn(15)
+		var rings Paths
+		R := int64(40 + 30*depth)
+		for c := 0; c < 1+r.Intn(2); c++ {
+			cx := int64(c) * 3 * R
+			for k := 0; k < depth; k++ {
+				h := R - int64(k)*20
+				if h < 4 {
+					break
+				}
+				rings = append(rings, gen.Box(cx-h, -h, cx+h, h, r.Bool()))
+			}
+		}
+		fr := clip.FillRule(r.Intn(4))
+		t.in = map[string]any{"rings": rings, "fillRule": int(fr)}
+		t.digest = run.Digest(t.in)
+		t.nonEmpty = true
+		var walk func(n *clip.PolyPathBase)
+		walk = func(n *clip.PolyPathBase) {
+			for i, ch := range n.GetChildren() {
+				_ = ch.IsHole()
+				_ = ch.Level()
+				_ = ch.Polygon()
+				_ = ch.Count()
+				_ = ch.Scale()
+				_ = ch.ToString()
+				_ = ch.ToStringInternal(i, ch.Level())
+				walk(ch)
+			}
+		}
+		var tree *clip.PolyTree64
+		if t.T("BooleanOpPolyTree64", func() { tree = clip.BooleanOpPolyTree64(clip.Union, rings, nil, clip.EvenOdd) }) && tree != nil {
+			t.T("PolyPathBase.ToString", func() { _ = tree.ToString() })
+			t.T("PolyPathBase.ToStringInternal", func() { walk(tree.PolyPathBase) })
+		}
+		var treeD *clip.PolyTreeD
+		if t.T("BooleanOpPolyTreeD", func() { treeD = clip.BooleanOpPolyTreeD(clip.Xor, toD(rings, 10), toD(rings[:len(rings)/2], 10), fr, 1) }) && treeD != nil {
+			t.T("PolyPathBase.ToString", func() { _ = treeD.ToString() })
+			t.T("PolyPathBase.ToStringInternal", func() { walk(treeD.PolyPathBase) })
+		}
 	case "tot-offset":
 		delta := gen.PickOf(r, 0, 0.3, -0.4, 0.5, -0.5, 1, -1, 2.5, -7, 40, 1e6, -1e6, 1e9, r.FloatRange(-50, 50))
 		jt := clip.JoinType(r.Intn(6))
